@@ -978,9 +978,10 @@ inline void runC18(Ctx &c)
             go.dur_pattern = (int)((idx / 8) % kNumDurPatterns);
             // dense data only: the relative-jump measure is meaningless where a derivative vanishes identically
             // (a coordinate that is constant but has non-zero boundary derivatives decays away from the ends like sparse
-            // data: only used for few segments, where nothing has decayed to rounding level yet)
+            // data: only used for few segments and moderate duration ratios, where nothing has decayed to rounding level yet;
+            // at ratio 100 even the float128 reference sees a vanishing derivative there)
             static const int denseClasses[] = {0, 0, 3, 4, 5, 7};
-            go.data_class = denseClasses[r.range(0, cl.N <= 5 ? 5 : 4)];
+            go.data_class = denseClasses[r.range(0, (cl.N <= 5 && R <= 16) ? 5 : 4)];
             int pat = 0, dc = 0;
             Problem p = genProblem(r, cl.order, cl.dim, cl.N, go, &pat, &dc);
             // keep every duration inside the optimizer's accepted range and the ratio within 100
